@@ -190,4 +190,109 @@ theorem C08_constructors_ok (s : SR ℝ) :
   | utm => exact ⟨(fwdTmerc cU, invTmerc cU), by simp [transformers, hname, hcU, bind, Except.bind, pure, Except.pure]⟩
   | krovak => exact ⟨(fwdKrovak cK, invKrovak cK), by simp [transformers, hname, hcK, bind, Except.bind, pure, Except.pure]⟩
 
+/-! ## the route decision of `NewTransform` (`checkNotWGS`, fix b165df1) -/
+
+theorem foldEqAscii_W (c : Char) : foldEqAscii c 'W' = true ↔ (c = 'W' ∨ c = 'w') := by
+  have h1 : ('W' : Char).isUpper = true := by decide
+  have h2 : ('W' : Char).isLower = false := by decide
+  have h3 : ('W' : Char).toLower = 'w' := by decide
+  simp [foldEqAscii, h1, h2, h3]
+
+theorem foldEqAscii_G (c : Char) : foldEqAscii c 'G' = true ↔ (c = 'G' ∨ c = 'g') := by
+  have h1 : ('G' : Char).isUpper = true := by decide
+  have h2 : ('G' : Char).isLower = false := by decide
+  have h3 : ('G' : Char).toLower = 'g' := by decide
+  simp [foldEqAscii, h1, h2, h3]
+
+theorem foldEqAscii_S (c : Char) : foldEqAscii c 'S' = true ↔ (c = 'S' ∨ c = 's' ∨ c = Char.ofNat 0x17F) := by
+  have h1 : ('S' : Char).isUpper = true := by decide
+  have h2 : ('S' : Char).isLower = false := by decide
+  have h3 : ('S' : Char).toLower = 's' := by decide
+  simp [foldEqAscii, h1, h2, h3, or_assoc]
+
+theorem foldEqAscii_digit (c t : Char) (hu : t.isUpper = false) (hl : t.isLower = false) (hk : t ≠ 'K' ∧ t ≠ 'k' ∧ t ≠ 'S' ∧ t ≠ 's') :
+    foldEqAscii c t = true ↔ c = t := by
+  simp [foldEqAscii, hu, hl, hk.1, hk.2.1, hk.2.2.1, hk.2.2.2]
+
+/-- the datum codes that `strings.EqualFold(code, "WGS84")` accepts: exactly the 12 strings `[Ww][Gg][Ssſ]84` -/
+def foldsToWGS84 (l : List Char) : Prop :=
+  ∃ c0 c1 c2, l = [c0, c1, c2, '8', '4'] ∧ (c0 = 'W' ∨ c0 = 'w') ∧ (c1 = 'G' ∨ c1 = 'g') ∧
+    (c2 = 'S' ∨ c2 = 's' ∨ c2 = Char.ofNat 0x17F)
+
+theorem goEqualFold_WGS84_iff (s : String) : goEqualFold s "WGS84" = true ↔ foldsToWGS84 s.toList := by
+  have ht : ("WGS84" : String).toList = ['W', 'G', 'S', '8', '4'] := by decide
+  unfold goEqualFold foldsToWGS84
+  rw [ht]
+  have h8 := fun c => foldEqAscii_digit c '8' (by decide) (by decide) (by decide)
+  have h4 := fun c => foldEqAscii_digit c '4' (by decide) (by decide) (by decide)
+  match s.toList with
+  | [] => simp [equalFoldAscii]
+  | [_] => simp [equalFoldAscii]
+  | [_, _] => simp [equalFoldAscii]
+  | [_, _, _] => simp [equalFoldAscii]
+  | [_, _, _, _] => simp [equalFoldAscii]
+  | [a, b, c, d, e] =>
+    simp only [equalFoldAscii, Bool.and_eq_true, foldEqAscii_W, foldEqAscii_G, foldEqAscii_S, h8, h4, Bool.and_true]
+    constructor
+    · rintro ⟨h0, h1, h2, h3, h4⟩
+      exact ⟨a, b, c, by rw [h3, h4], h0, h1, h2⟩
+    · rintro ⟨c0, c1, c2, hl, h0, h1, h2⟩
+      simp only [List.cons.injEq, and_true] at hl
+      obtain ⟨rfl, rfl, rfl, rfl, rfl⟩ := hl
+      exact ⟨h0, h1, h2, rfl, rfl⟩
+  | _ :: _ :: _ :: _ :: _ :: _ :: _ => simp [equalFoldAscii]
+
+/-- **checkNotWGS_iff** (route decision of `NewTransform`, after fix b165df1): the detour through WGS84 is asked
+for by `(source, dest)` exactly when the source datum is a 3- or 7-parameter datum and the destination's datum code is
+none of the 12 spellings `[Ww][Gg][Ssſ]84` that `strings.EqualFold(·, "WGS84")` accepts. -/
+theorem C08_checkNotWGS_iff {α : Type} [RTrans α] (s d : SR α) :
+    checkNotWGS s d = true ↔
+      (s.datum.dtype = pjd3Param ∨ s.datum.dtype = pjd7Param) ∧ ¬ foldsToWGS84 d.datumCode.toList := by
+  unfold checkNotWGS
+  rw [Bool.and_eq_true, Bool.or_eq_true, decide_eq_true_eq, decide_eq_true_eq, Bool.not_eq_true', ← goEqualFold_WGS84_iff,
+    Bool.not_eq_true]
+
+/-- **route_case_insensitive** (the statement of fix b165df1): two destinations (or sources) that differ only in the
+spelling of a datum code that folds to `WGS84` — `wgs84` from the WKT reader or from `+datum=wgs84`, `WGS84` from
+`+datum=WGS84` — get the same decision in both argument positions, hence `NewTransform` takes the same route. -/
+theorem C08_route_case_insensitive {α : Type} [RTrans α] (s d : SR α) (c c' : String)
+    (h : foldsToWGS84 c.toList) (h' : foldsToWGS84 c'.toList) :
+    checkNotWGS s { d with datumCode := c } = checkNotWGS s { d with datumCode := c' } ∧
+    checkNotWGS { d with datumCode := c } s = checkNotWGS { d with datumCode := c' } s ∧
+    (checkNotWGS s { d with datumCode := c } || checkNotWGS { d with datumCode := c } s)
+      = (checkNotWGS s { d with datumCode := c' } || checkNotWGS { d with datumCode := c' } s) := by
+  have e1 : goEqualFold c "WGS84" = true := (goEqualFold_WGS84_iff c).mpr h
+  have e2 : goEqualFold c' "WGS84" = true := (goEqualFold_WGS84_iff c').mpr h'
+  have a : checkNotWGS s { d with datumCode := c } = checkNotWGS s { d with datumCode := c' } := by
+    simp [checkNotWGS, e1, e2]
+  have b : checkNotWGS { d with datumCode := c } s = checkNotWGS { d with datumCode := c' } s := by
+    simp [checkNotWGS]
+  exact ⟨a, b, by rw [a, b]⟩
+
+example : foldsToWGS84 ("wgs84" : String).toList := ⟨'w', 'g', 's', by decide, by decide, by decide, by decide⟩
+example : foldsToWGS84 ("WGS84" : String).toList := ⟨'W', 'G', 'S', by decide, by decide, by decide, by decide⟩
+
+/-- negation for the pre-fix decision (`dest.DatumCode != "WGS84"`, exact): a 3-parameter source sent the WKT spelling
+through the WGS84 detour and the PROJ.4 spelling directly. -/
+theorem C08_route_unfixed_case_sensitive :
+    ∃ s d : SR ℝ, checkNotWGSUnfixed s { d with datumCode := "wgs84" } = true ∧
+      checkNotWGSUnfixed s { d with datumCode := "WGS84" } = false :=
+  ⟨{ (default : SR ℝ) with datum := { (default : Datum ℝ) with dtype := pjd3Param } }, default, by decide, by decide⟩
+
+/-- **route_wkt_direct**: a source on a 3- or 7-parameter datum and a destination whose datum is WGS84 (type
+`pjdWGS84`) under ANY accepted spelling of the code: the closure is ONE `transform3` (no detour), whatever else the two
+records contain. -/
+theorem C08_route_wkt_direct {α : Type} [RTrans α] (w s d : SR α) (hd : foldsToWGS84 d.datumCode.toList)
+    (hd4 : d.datum.dtype = pjdWGS84) (x y : α) :
+    transform w s d x y = (transform3 s d x y 0.0).map (fun r => (r.1, r.2.1)) := by
+  have e1 : checkNotWGS s d = false := by
+    have := (goEqualFold_WGS84_iff d.datumCode).mpr hd
+    simp [checkNotWGS, this]
+  have e2 : checkNotWGS d s = false := by simp [checkNotWGS, hd4, pjdWGS84, pjd3Param, pjd7Param]
+  unfold transform
+  rw [e1, e2]
+  cases h : transform3 s d x y 0.0 with
+  | error e => simp [bind, Except.bind, Except.map]
+  | ok r => obtain ⟨a, b, c⟩ := r; simp [bind, Except.bind, Except.map, pure, Except.pure]
+
 end GeomV.C08
